@@ -587,8 +587,9 @@ Ltac exec_jump H n lem :=
   eapply star_step; [eapply one_jump; [exact Hc | exact Ha | eapply lem] | ]; clear Hc Ha.
 
 Ltac regs :=
-  repeat first [ rewrite rget_sstore | rewrite rget_rset_same by (vm_compute; discriminate)
-               | rewrite rget_rset_other by (first [congruence | vm_compute; discriminate]) ].
+  repeat first [ rewrite rget_sstore
+               | rewrite rget_rset_same by (first [assumption | vm_compute; discriminate])
+               | rewrite rget_rset_other by (first [assumption | congruence | vm_compute; discriminate]) ].
 
 (* ---------- the abstract heap operations (DESIGN.md Appendix D, on words) ----------
    A block's header is the word at the block's address (REFERENCE_COUNT_OFFSET =
@@ -735,4 +736,197 @@ Proof.
     + regs. exact Hb.
     + regs. exact Hfp.
   - intros r Hr. regs. reflexivity.
+Qed.
+
+(* ---------- acquire_block ---------- *)
+Lemma placed_sub : forall im i cs n m,
+  placed im i cs -> (n + m <= List.length cs)%nat -> placed im (padd i n) (firstn m (skipn n cs)).
+Proof.
+  intros im i cs n m H Hlen.
+  rewrite <- (firstn_skipn n cs) in H. apply placed_app in H as [_ H].
+  rewrite firstn_length_le in H by lia.
+  rewrite <- (firstn_skipn m (skipn n cs)) in H. now apply placed_app in H as [H _].
+Qed.
+
+Definition valid_block (b : Z) : Prop := forall k, 0 <= k < 8 -> valid_addr (b + 8 * k).
+
+Fixpoint erase_children (b : Z) (ks : list N) (h : aheap) : aheap :=
+  match ks with
+  | [] => h
+  | k :: r => erase_children b r (a_erase (words h (b + field_offset Fst k)) h)
+  end.
+Fixpoint children_ok (b : Z) (ks : list N) (h : aheap) : Prop :=
+  match ks with
+  | [] => True
+  | k :: r => let c := words h (b + field_offset Fst k) in
+              (c = 0 \/ valid_addr c) /\ children_ok b r (a_erase c h)
+  end.
+
+(* Appendix D's `acquire` on words: the block handed out and the heap afterwards.
+   (1) the linear free list has a next element; (3) bump allocation from the untouched part
+   (the lazy list's head has a zero header); (2) the head of the lazy free list becomes the next
+   linear block and its three children are erased. *)
+Definition a_acquire (h : aheap) : Z * aheap :=
+  let r := hp h in
+  let h' := words h r in
+  if negb (h' =? 0) then (r, {| words := upd (words h) r 0; hp := h'; fp := fp h |})
+  else
+    let h2 := fp h in
+    let f' := words h h2 in
+    if f' =? 0 then (r, {| words := words h; hp := h2; fp := wrap (h2 + field_offset Fst FIELDS_PER_BLOCK) |})
+    else (r, erase_children h2 [0; 1; 2]%N {| words := upd (words h) h2 0; hp := h2; fp := f' |}).
+
+Lemma hp_a_erase : forall p h, hp (a_erase p h) = hp h.
+Proof. intros. unfold a_erase. destruct (p =? 0); [reflexivity|]. destruct (words h p =? 0); reflexivity. Qed.
+
+Lemma nseq_fields : nseq 0 FIELDS_PER_BLOCK = [0; 1; 2]%N.
+Proof. reflexivity. Qed.
+
+Ltac acquire_code H :=
+  unfold acquire_block, erase_fields in H; rewrite nseq_fields in H;
+  cbn [fst snd fold_left r_erase_block if_zero_then_else skip_if_zero app] in H;
+  change REFERENCE_COUNT_OFFSET with 0 in H; change NEXT_ELEMENT_OFFSET with 0 in H;
+  change (field_offset Fst 0) with 16 in H; change (field_offset Fst 1) with 32 in H;
+  change (field_offset Fst 2) with 48 in H; change (field_offset Fst FIELDS_PER_BLOCK) with 64 in H.
+
+Lemma acquire_block_length : forall t t2 lc, List.length (fst (acquire_block t t2 lc)) = 51%nat.
+Proof. reflexivity. Qed.
+
+Theorem rv_acquire_block_refines : forall im i t t2 lc s h,
+  placed im i (fst (acquire_block t t2 lc)) ->
+  t <> ZERO -> t <> TEMP -> t <> HEAP -> t <> FREE ->
+  t2 <> ZERO -> t2 <> TEMP -> t2 <> HEAP -> t2 <> FREE -> t <> t2 ->
+  represents s h ->
+  valid_addr (hp h) ->
+  (words h (hp h) = 0 -> valid_block (fp h)) ->
+  (words h (hp h) = 0 -> words h (fp h) <> 0 ->
+     children_ok (fp h) [0; 1; 2]%N {| words := upd (words h) (fp h) 0; hp := fp h; fp := words h (fp h) |}) ->
+  exists s',
+    star im i s (padd i (List.length (fst (acquire_block t t2 lc)))) s' /\
+    represents s' (snd (a_acquire h)) /\
+    rget s' t = Some (fst (a_acquire h)) /\
+    (forall r, r <> t -> r <> t2 -> r <> TEMP -> r <> HEAP -> r <> FREE -> rget s' r = rget s r).
+Proof.
+  intros im i t t2 lc s h Hpl Ht0 Ht1 Ht2 Ht3 Hu0 Hu1 Hu2 Hu3 Htu (Hw & Hhp & Hfp) Hvr Hvb Hch.
+  rewrite acquire_block_length. cbn [padd].
+  (* the three embedded erase_block fragments *)
+  assert (He1 : placed im (padd i 11) (fst (r_erase_block t2 lc))).
+  { apply (placed_sub im i _ 11 11 Hpl). rewrite acquire_block_length. lia. }
+  assert (He2 : placed im (padd i 23) (fst (r_erase_block t2 (lc + 2 + 1)))).
+  { apply (placed_sub im i _ 23 11 Hpl). rewrite acquire_block_length. lia. }
+  assert (He3 : placed im (padd i 35) (fst (r_erase_block t2 (lc + 2 + 1 + 2 + 1)))).
+  { apply (placed_sub im i _ 35 11 Hpl). rewrite acquire_block_length. lia. }
+  destruct Hpl as [Hcode HL]. acquire_code Hcode. acquire_code HL.
+  assert (Hr0 : valid_addr (hp h + 0)) by now rewrite Z.add_0_r.
+  assert (Hrpos : 0 < hp h) by now apply valid_pos.
+  unfold a_acquire.
+  destruct (Z.eqb_spec (words h (hp h)) 0) as [Hz|Hnz]; cbn [negb].
+  2:{ (* (1) next element of the linear free list *)
+    eexists. split; [|split; [|split]].
+    - exec_next Hcode 0%nat step_MV.
+      exec_next Hcode 1%nat step_LW; [regs; exact Hhp | reflexivity | exact Hr0 |].
+      exec_next Hcode 2%nat step_BEQ0_not; [regs; reflexivity | rewrite hword_rset, Z.add_0_r, Hw; exact Hnz |].
+      exec_next Hcode 3%nat step_SW; [regs; exact Hhp | reflexivity | reflexivity | exact Hr0 |].
+      exec_jump Hcode 4%nat step_JAL0; [apply (HL 50%nat _ eq_refl) |].
+      exec_next Hcode 50%nat step_LAB. apply star_refl.
+    - cbn [snd]. split; [|split]; cbn [words hp fp].
+      + intros a. rewrite hword_sstore by (now rewrite Z.add_0_r). rewrite !hword_rset, Z.add_0_r.
+        unfold upd. destruct (a =? hp h); [reflexivity|apply Hw].
+      + regs. now rewrite hword_rset, Z.add_0_r, Hw.
+      + regs. exact Hfp.
+    - cbn [fst]. regs. exact Hhp.
+    - intros r H1 H2 H3 H4 H5. regs. reflexivity. }
+  specialize (Hvb Hz).
+  assert (Hf0 : valid_addr (fp h + 0)) by (rewrite Z.add_0_r; replace (fp h) with (fp h + 8 * 0) by lia; apply Hvb; lia).
+  assert (Hfpos : 0 < fp h) by (apply valid_pos; now rewrite Z.add_0_r in Hf0).
+  destruct (Z.eqb_spec (words h (fp h)) 0) as [Hfz|Hfnz].
+  - (* (3) bump allocation *)
+    eexists. split; [|split; [|split]].
+    + exec_next Hcode 0%nat step_MV.
+      exec_next Hcode 1%nat step_LW; [regs; exact Hhp | reflexivity | exact Hr0 |].
+      exec_jump Hcode 2%nat step_BEQ0_taken; [regs; now rewrite hword_rset, Z.add_0_r, Hw, Hz | apply (HL 5%nat _ eq_refl) |].
+      exec_next Hcode 5%nat step_LAB.
+      exec_next Hcode 6%nat step_MV.
+      exec_next Hcode 7%nat step_LW; [regs; exact Hfp | reflexivity | exact Hf0 |].
+      exec_jump Hcode 8%nat step_BEQ0_taken; [regs; now rewrite !hword_rset, Z.add_0_r, Hw, Hfz | apply (HL 47%nat _ eq_refl) |].
+      exec_next Hcode 47%nat step_LAB.
+      exec_next Hcode 48%nat step_ADDI; [regs; exact Hfp | reflexivity |].
+      exec_next Hcode 49%nat step_LAB.
+      exec_next Hcode 50%nat step_LAB. apply star_refl.
+    + cbn [snd]. split; [|split]; cbn [words hp fp].
+      * intros a. rewrite !hword_rset. apply Hw.
+      * regs. exact Hfp.
+      * regs. reflexivity.
+    + cbn [fst]. regs. exact Hhp.
+    + intros r H1 H2 H3 H4 H5. regs. reflexivity.
+  - (* (2) head of the lazy free list, children erased *)
+    specialize (Hch Hz Hfnz). cbn [children_ok] in Hch.
+    change (field_offset Fst 0) with 16 in Hch. change (field_offset Fst 1) with 32 in Hch.
+    change (field_offset Fst 2) with 48 in Hch.
+    destruct Hch as (Hc1 & Hc2 & Hc3 & _).
+    set (h1 := {| words := upd (words h) (fp h) 0; hp := fp h; fp := words h (fp h) |}) in *.
+    assert (Hv16 : valid_addr (fp h + 16)) by (replace 16 with (8 * 2) by lia; apply Hvb; lia).
+    assert (Hv32 : valid_addr (fp h + 32)) by (replace 32 with (8 * 4) by lia; apply Hvb; lia).
+    assert (Hv48 : valid_addr (fp h + 48)) by (replace 48 with (8 * 6) by lia; apply Hvb; lia).
+    (* up to the first child *)
+    assert (H9 : exists s9, star im i s (padd i 10) s9 /\ represents s9 h1 /\ rget s9 t = Some (hp h) /\
+                            (forall r, r <> t -> r <> HEAP -> r <> FREE -> rget s9 r = rget s r)).
+    { eexists. split; [|split; [|split]].
+      - exec_next Hcode 0%nat step_MV.
+        exec_next Hcode 1%nat step_LW; [regs; exact Hhp | reflexivity | exact Hr0 |].
+        exec_jump Hcode 2%nat step_BEQ0_taken; [regs; now rewrite hword_rset, Z.add_0_r, Hw, Hz | apply (HL 5%nat _ eq_refl) |].
+        exec_next Hcode 5%nat step_LAB.
+        exec_next Hcode 6%nat step_MV.
+        exec_next Hcode 7%nat step_LW; [regs; exact Hfp | reflexivity | exact Hf0 |].
+        exec_next Hcode 8%nat step_BEQ0_not; [regs; reflexivity | rewrite !hword_rset, Z.add_0_r, Hw; exact Hfnz |].
+        exec_next Hcode 9%nat step_SW; [regs; exact Hfp | reflexivity | reflexivity | exact Hf0 |].
+        apply star_refl.
+      - unfold h1. split; [|split]; cbn [words hp fp].
+        + intros a. rewrite hword_sstore by (now rewrite Z.add_0_r). rewrite !hword_rset, Z.add_0_r.
+          unfold upd. destruct (a =? fp h); [reflexivity|apply Hw].
+        + regs. exact Hfp.
+        + regs. now rewrite !hword_rset, Z.add_0_r, Hw.
+      - regs. exact Hhp.
+      - intros r H1 H2 H3. regs. reflexivity. }
+    destruct H9 as (s9 & Hstar9 & Hrep9 & Ht9 & Hfr9).
+    (* one child: LW t2 HEAP off; erase_block t2 *)
+    assert (Hchild : forall sA hA off j lcA,
+               represents sA hA -> hp hA = fp h -> valid_addr (fp h + off) -> fits12 off = true ->
+               (words hA (fp h + off) = 0 \/ valid_addr (words hA (fp h + off))) ->
+               (PM.find (padd i j) (code im) = Some (LW t2 HEAP off) /\ exists a, PM.find (padd i j) (addr_of im) = Some a) ->
+               placed im (padd i (S j)) (fst (r_erase_block t2 lcA)) ->
+               exists sB, star im (padd i j) sA (padd i (S j + 11)) sB /\
+                          represents sB (a_erase (words hA (fp h + off)) hA) /\
+                          (forall r, r <> t2 -> r <> TEMP -> r <> FREE -> rget sB r = rget sA r)).
+    { intros sA hA off j lcA (HwA & HhpA & HfpA) HhpE Hvo Hfo Hcv [Hc [a Ha]] Hpe.
+      destruct (rv_erase_block_refines im (padd i (S j)) t2 lcA (rset sA t2 (Some (hword sA (fp h + off)))) hA
+                  (words hA (fp h + off)) Hpe Hu0 Hu1 Hu2 Hu3) as (sB & HsB & HrB & HfB).
+      - split; [|split]; [intros; rewrite hword_rset; apply HwA | regs; exact HhpA | regs; exact HfpA].
+      - regs. now rewrite HwA.
+      - exact Hcv.
+      - exists sB. split; [|split].
+        + eapply star_step.
+          * eapply one_next; [exact Hc | exact Ha | eapply step_LW; [rewrite HhpA, HhpE; reflexivity | exact Hfo | exact Hvo]].
+          * rewrite <- padd_succ. cbn [padd]. rewrite padd_add. exact HsB.
+        + exact HrB.
+        + intros r H1 H2 H3. rewrite HfB by assumption. regs. reflexivity. }
+    destruct (Hchild s9 h1 16 10%nat lc Hrep9 eq_refl Hv16 eq_refl Hc1 (Hcode 10%nat _ eq_refl) He1) as (sB1 & HsB1 & HrB1 & HfB1).
+    set (hB1 := a_erase (words h1 (fp h + 16)) h1) in *.
+    destruct (Hchild sB1 hB1 32 22%nat _ HrB1 (hp_a_erase _ _) Hv32 eq_refl Hc2 (Hcode 22%nat _ eq_refl) He2) as (sB2 & HsB2 & HrB2 & HfB2).
+    set (hB2 := a_erase (words hB1 (fp h + 32)) hB1) in *.
+    assert (HhpB2 : hp hB2 = fp h) by (unfold hB2; rewrite hp_a_erase; unfold hB1; now rewrite hp_a_erase).
+    destruct (Hchild sB2 hB2 48 34%nat _ HrB2 HhpB2 Hv48 eq_refl Hc3 (Hcode 34%nat _ eq_refl) He3) as (sB3 & HsB3 & HrB3 & HfB3).
+    exists sB3. split; [|split; [|split]].
+    + eapply star_trans; [exact Hstar9|].
+      eapply star_trans; [exact HsB1|].
+      eapply star_trans; [exact HsB2|].
+      eapply star_trans; [exact HsB3|].
+      exec_jump Hcode 46%nat step_JAL0; [apply (HL 49%nat _ eq_refl) |].
+      exec_next Hcode 49%nat step_LAB.
+      exec_next Hcode 50%nat step_LAB. apply star_refl.
+    + cbn [snd erase_children].
+      change (field_offset Fst 0) with 16. change (field_offset Fst 1) with 32. change (field_offset Fst 2) with 48.
+      exact HrB3.
+    + cbn [fst]. rewrite HfB3, HfB2, HfB1 by congruence. exact Ht9.
+    + intros r H1 H2 H3 H4 H5. rewrite HfB3, HfB2, HfB1 by assumption. now apply Hfr9.
 Qed.
